@@ -836,4 +836,17 @@ theorem ensureTopic_has (s : State) (t : Nat) : ∃ y ∈ (ensureTopic s t).topi
   · exact ⟨{ tid := t, memCap := s.conf.memq }, by simp, rfl⟩
 
 
+theorem envlog_functional {l : List (Nat × Env)} (hn : (l.map (·.1)).Nodup) {id : Nat} {e1 e2 : Env}
+    (h1 : (id, e1) ∈ l) (h2 : (id, e2) ∈ l) : e1 = e2 := by
+  induction l with
+  | nil => cases h1
+  | cons p l ih =>
+    simp only [List.map_cons, List.nodup_cons, List.mem_map, not_exists, not_and] at hn
+    simp only [List.mem_cons] at h1 h2
+    rcases h1 with h1 | h1 <;> rcases h2 with h2 | h2
+    · rw [← h1] at h2; exact (Prod.mk.inj h2).2.symm
+    · exact absurd (by rw [← h1]) (hn.1 (id, e2) h2)
+    · exact absurd (by rw [← h2]) (hn.1 (id, e1) h1)
+    · exact ih hn.2 h1 h2
+
 end Nsq.Proofs.ChanNsqd
